@@ -1421,7 +1421,7 @@ class Models:
     def b_numpy_dot(self, ip, a, kw, node):
         return self.dot(ip, a[0], a[1])
 
-    def b_numpy_sum(self, ip, a, kw, node):
+    def b_numpy_sum_real(self, ip, a, kw, node):
         return self.sum_of(ip, a[0])
 
     def b_numpy_fromiter(self, ip, a, kw, node):
@@ -1445,6 +1445,47 @@ class Models:
 
     def b_numpy_all(self, ip, a, kw, node):
         return ip.schema.np_all(ip, a[0])
+
+    def _xhook(self, ip, name, a, kw):
+        h = getattr(ip.reg, "xarr_hooks", {}).get(name)
+        if h is None:
+            raise Unsupported(f"no model for builtin/external numpy.{name}")
+        return h(ip, a, kw)
+
+    def b_numpy_size(self, ip, a, kw, node):
+        if isinstance(a[0], (SArr, SSeq)) and len(a) == 1:
+            v = a[0]
+            if isinstance(v, SArr) and v.shape is not None:
+                return SInt(self.len_term(v.shape[0]) * self.len_term(v.shape[1]))
+            n = v.n
+            return n if isinstance(n, int) else SInt(n)
+        return self._xhook(ip, "size", a, kw)
+
+    def b_numpy_max(self, ip, a, kw, node):
+        return self._xhook(ip, "max", a, kw)
+
+    def b_numpy_min(self, ip, a, kw, node):
+        return self._xhook(ip, "min", a, kw)
+
+    def b_numpy_amax(self, ip, a, kw, node):
+        return self._xhook(ip, "max", a, kw)
+
+    def b_numpy_amin(self, ip, a, kw, node):
+        return self._xhook(ip, "min", a, kw)
+
+    def b_numpy_sum(self, ip, a, kw, node):
+        if getattr(ip.reg, "xarr_hooks", None) and type(a[0]).__name__ in ("XArr",):
+            return self._xhook(ip, "sum", a, kw)
+        return self.b_numpy_sum_real(ip, a, kw, node)
+
+    def b_numpy_any(self, ip, a, kw, node):
+        return self._xhook(ip, "any", a, kw)
+
+    def b_numpy_isnan(self, ip, a, kw, node):
+        return self._xhook(ip, "isnan", a, kw)
+
+    def b_numpy_isinf(self, ip, a, kw, node):
+        return self._xhook(ip, "isinf", a, kw)
 
     def b_numpy_nan_to_num(self, ip, a, kw, node):
         return ip.schema.nan_to_num(ip, a[0], kw)
